@@ -16,7 +16,7 @@ from bctmc.tally import Tally
 from bctmc import dtypes
 
 PROPERTY = 'C15'
-RULE = ('K260 and a 12-clique with a hub of degree 258 (degrees beyond 255) against the peeling definition; element types: every routine also on int64 / int32 / uint8 / bool copies of all 3-node digraphs over {0,1} and {0,1,2}, 4-node graphs over {0,1,2}, 5-node binary graphs (same values as for float64; integers must not raise, a boolean matrix may be rejected with TypeError); every free tree on 8 nodes under the scan orders of bctmc/trees.py (951 labelled trees, 0/1); the structured 7-10 node family of bctmc/named.py and all undirected graphs n<=6 x k=0..n; all digraphs n<=4 x k=0..2n-1 '
+RULE = ('K260, a 12-clique with a hub of degree 258 (degrees beyond 255) and path600 (300 peeling rounds, peel levels) against the peeling definition; element types: every routine also on int64 / int32 / uint8 / bool copies of all 3-node digraphs over {0,1} and {0,1,2}, 4-node graphs over {0,1,2}, 5-node binary graphs (same values as for float64; integers must not raise, a boolean matrix may be rejected with TypeError); every free tree on 8 nodes under the scan orders of bctmc/trees.py (951 labelled trees, 0/1); the structured 7-10 node family of bctmc/named.py and all undirected graphs n<=6 x k=0..n; all digraphs n<=4 x k=0..2n-1 '
         '(n<=3 and 4-node digraphs in quick); symmetric weights {1,2,3}, {0.5,1,1.5} and the non-dyadic {0.3,0.6} on 4 nodes x s on a 0.25 '
         'grid up to max strength+0.25; coreness on every graph; non-trivial = (graph,k) whose peeling needs >= 2 '
         'rounds (removing one node drags others below the bound)')
@@ -53,7 +53,7 @@ def plan(ctx):
         tot = ss.und_count(5, (0, 1, 2))
         for (a, b) in ss.ranges(tot, 256):
             units.append(('wu', 5, (0, 1, 2), a, b))
-    units += [('large', k, 0, 0, 0) for k in range(2)]
+    units += [('large', k, 0, 0, 0) for k in range(3)]
     units += dtypes.units(dtypes.STD_FAMILIES)
     return units
 
@@ -212,7 +212,10 @@ def large_graphs():
     H = np.zeros((259, 259))
     H[:12, :12] = 1 - np.eye(12)
     H[0, 12:] = H[12:, 0] = 1
-    return [('K260', K), ('clique12_hub258', H)]
+    P = np.zeros((600, 600))
+    for i in range(599):
+        P[i, i + 1] = P[i + 1, i] = 1
+    return [('K260', K), ('clique12_hub258', H), ('path600', P)]
 
 
 def work_large(idx):
@@ -237,6 +240,19 @@ def work_large(idx):
                 t.viol(fname, 'core_matrix', case, observed=int(np.count_nonzero(M)), expected=int(np.count_nonzero(expect)))
             if int(out[1]) != size:
                 t.viol(fname, 'core_size', case, observed=out[1], expected=size)
+            if label == 'path600' and k in (2, 5):
+                # 300 peeling rounds: the level of every removed node is its round
+                st, outp = guarded(getattr(bct, fname), A.copy(), k, peel=True, _timeout=600)
+                t.c['evaluations'] += 1
+                if st != 'ok':
+                    t.viol(fname, 'raises', dict(case, peel=True), observed=outp)
+                else:
+                    got_o = [int(x) for part in outp[2] for x in np.asarray(part).ravel()]
+                    got_l = [float(x) for part in outp[3] for x in np.asarray(part).ravel()]
+                    exp = {v: float(i + 1) for i, r in enumerate(rounds) for v in r}
+                    if sorted(got_o) != sorted(exp) or len(got_l) != len(got_o) or dict(zip(got_o, got_l)) != exp:
+                        t.viol(fname, 'peel_levels', dict(case, peel=True), observed=sorted(set(got_l))[:6] + sorted(set(got_l))[-3:],
+                               expected=[1.0, float(len(rounds))])
     st, out = guarded(bct.kcoreness_centrality_bu, A.copy(), _timeout=600)
     t.c['evaluations'] += 1
     if st != 'ok':
